@@ -68,7 +68,12 @@ def build_graph(nodes: Set[Type[VisionsBaseType]]) -> Tuple[nx.DiGraph, nx.DiGra
 
     check_graph_constraints(relation_graph)
 
-    base_graph = relation_graph.edge_subgraph(noninferential_edges)
+    # All nodes of the relation graph with the non-inferential edges only; unlike
+    # `edge_subgraph` this keeps nodes without identity edges (e.g. a lone root)
+    base_edges = set(noninferential_edges)
+    base_graph = nx.subgraph_view(
+        relation_graph, filter_edge=lambda u, v: (u, v) in base_edges
+    )
     return relation_graph, base_graph
 
 
